@@ -312,7 +312,9 @@ def parse_header(path):
                 ns = [s for s in stack if s]
                 structs.append({'name': m.group(2), 'ns': ns, 'qual': '::'.join(ns + [m.group(2)]),
                                 'header': header, 'line': line0, 'alignas': int(m.group(1)),
-                                'base': m.group(3), 'has_message_type': has_type, 'members': members})
+                                'base': m.group(3), 'has_message_type': has_type,
+                                'has_message_version': bool(re.search(r'\bstatic\b[^;{}]*\bMESSAGE_VERSION\b', body)),
+                                'members': members})
                 i = end
                 continue
             i += 1
@@ -413,8 +415,9 @@ def emit_probe(structs, path):
         out.append('    typedef %s S;' % q)
         out.append('    static_assert(std::is_standard_layout<S>::value, "%s is not standard layout");' % s['key'])
         mt = '(long)S::MESSAGE_TYPE' if s['has_message_type'] else '-1L'
-        out.append('    printf("struct %d sizeof=%%ld alignof=%%ld message_type=%%ld empty_base=%%d\\n", '
-                   '(long)sizeof(S), (long)alignof(S), %s, %d);' % (k, mt, 1 if s['base'] else 0))
+        mv = '(long)S::MESSAGE_VERSION' if s.get('has_message_version') else '-1L'
+        out.append('    printf("struct %d sizeof=%%ld alignof=%%ld message_type=%%ld empty_base=%%d message_version=%%ld\\n", '
+                   '(long)sizeof(S), (long)alignof(S), %s, %d, %s);' % (k, mt, 1 if s['base'] else 0, mv))
         if s['base']:
             for j in range(1, len(s['ns']) + 1):
                 out.append('    using namespace ::%s;' % '::'.join(s['ns'][:j]))
@@ -459,9 +462,11 @@ def parse_probe_output(structs, text):
         if w[0] == 'struct':
             s = structs[int(w[1])]
             mt = int(kv['message_type'])
+            mv = int(kv.get('message_version', -1))
             cur = {'key': s['key'], 'name': s['name'], 'qual': s['qual'], 'header': s['header'],
                    'sizeof': int(kv['sizeof']), 'alignof': int(kv['alignof']),
-                   'message_type': None if mt < 0 else mt, 'payload': bool(s['base']), 'members': []}
+                   'message_type': None if mt < 0 else mt, 'message_version': None if mv < 0 else mv,
+                   'payload': bool(s['base']), 'members': []}
             res.append(cur)
         elif w[0] == 'member':
             decl = [m for m in structs[len(res) - 1]['members'] if m['name'] == w[1]][0]
